@@ -3,6 +3,7 @@ package main
 import (
 	"encoding/json"
 	"fmt"
+	"github.com/jsightapi/jsight-api-go-library/directive"
 	"os"
 	"path/filepath"
 	"regexp"
@@ -842,6 +843,29 @@ func (c *c01) historyProjects(r *rng) []Project {
 	var out []Project
 	cp := loadCorpus()
 	for k := 1 + r.n(3); k > 0; k-- {
+		if r.chance(250) {
+			// a project whose included file stops right after a keyword, its parameter or its
+			// annotation (no line break): whatever the scanner had pending when it was rejected
+			kw := directive.Enumeration(r.n(nDirectiveKinds)).String()
+			if kw == "HTTP-response-code" || kw == "" {
+				kw = "200"
+			}
+			text := kw
+			switch r.n(3) {
+			case 1:
+				text += " " + []string{"@n", "/p", "x.jst", "any"}[r.n(4)]
+			case 2:
+				text += " " + []string{"@n", "/p"}[r.n(2)] + " // x"
+			}
+			if r.chance(300) {
+				text += " // x"
+			}
+			hp := Project{Root: "/sim/hist/stub/main.jst", Cwd: "/sim/cwd", Name: "stub:" + text}
+			hp.set(hp.Root, []byte("JSIGHT 0.3\n"+[]string{"", "URL /u\n", "GET /g\n  Request\n"}[r.n(3)]+"INCLUDE inc.jst\n"))
+			hp.set("/sim/hist/stub/inc.jst", []byte(text))
+			out = append(out, hp)
+			continue
+		}
 		if r.chance(600) {
 			for tries := 0; tries < 8; tries++ {
 				if i := r.n(len(cp.roots)); lightFixture(i) {
